@@ -30,6 +30,11 @@ SEEDS = [
          new="""        let _ = subset::<K, V>;
         self.0 == other.0""",
          what='map equality compares the entry vectors (order sensitive again)'),
+    dict(name='c13_insert_prepends', pid='C13', only='^c13_ordermap_insert_n[02]$',
+         file='rsass/src/ordermap.rs',
+         old="        self.0.push((key, value));\n        None",
+         new="        self.0.insert(0, (key, value));\n        None",
+         what='map.set puts a new key first instead of last'),
     dict(name='c12_number_eq_one_sided', pid='C12', only='^c12_number_eq_symmetric$',
          file='rsass/src/value/number.rs',
          old="/ self.value.abs().max(other.value.abs())",
@@ -71,7 +76,15 @@ SEEDS = [
          file='rsass/src/value/colors/mod.rs',
          old="let alpha = alpha.clamp(0., 1.);",
          new="let alpha = alpha.min(1.);",
-         what='Color::set_alpha no longer clamps negative alpha'),
+         expect_quiet=True,
+         what='EQUIVALENT change (control): Color::set_alpha stops clamping negative alpha, but every representation clamps again — the property still holds and the check must stay quiet'),
+    dict(name='c31_rgba_alpha_not_clamped', pid='C31', only='^c31_rgba_set_alpha_in_range$',
+         file='rsass/src/value/colors/rgba.rs',
+         old="""    pub fn set_alpha(&mut self, alpha: f64) {
+        self.alpha = alpha.clamp(0., 1.);""",
+         new="""    pub fn set_alpha(&mut self, alpha: f64) {
+        self.alpha = alpha.min(1.);""",
+         what='Rgba::set_alpha no longer clamps negative alpha'),
     dict(name='c32_invert_keeps_hue', pid='C32', only='^c32_hsla_invert',
          file='rsass/src/value/colors/hsla.rs',
          old="hue: deg_mod(self.hue + 180.),",
@@ -134,13 +147,20 @@ def main():
         viol = re.findall(r'^VIOLATION .*$', r.stdout, re.M)
         failed = re.findall(r'^  failed obligation: (.*)$', r.stdout, re.M)
         out.append(dict(name=s['name'], property=s['pid'], change=s['what'], file=s['file'], exit=r.returncode,
-                        detected=bool(r.returncode == 1 and viol), failed_obligations=failed,
+                        detected=bool(r.returncode == 1 and viol), expected='quiet (exit 0)' if s.get('expect_quiet') else 'VIOLATION (exit 1)',
+                        as_expected=(r.returncode == 0 and not viol) if s.get('expect_quiet') else bool(r.returncode == 1 and viol),
+                        failed_obligations=failed,
                         violation_lines=viol, wall_s=round(time.time() - t0, 1),
                         tail=r.stdout[-600:] if r.returncode != 1 else ''))
         print(json.dumps(out[-1]), flush=True)
     shutil.rmtree(os.path.dirname(SCRATCH), ignore_errors=True)
     os.makedirs(os.path.join(ROOT, 'seeded'), exist_ok=True)
-    json.dump(out, open(os.path.join(ROOT, 'seeded', 'results.json'), 'w'), indent=1)
+    rp = os.path.join(ROOT, 'seeded', 'results.json')
+    if rx != '.' and os.path.exists(rp):   # partial run: merge into the existing record
+        old = [o for o in json.load(open(rp)) if o['name'] not in [x['name'] for x in out]]
+        order = [x['name'] for x in SEEDS]
+        out = sorted(old + out, key=lambda o: order.index(o['name']) if o['name'] in order else 99)
+    json.dump(out, open(rp, 'w'), indent=1)
 
 
 main()
